@@ -122,6 +122,34 @@ def one(job):
                 late = True
         if not late:
             fails.append("the daemon no longer serves new connections after the failure")
+    # a request refused because of the failure must leave every element as it was (C04 under faults): every element the daemon
+    # holds at a snapshot has the kind it was added with and a value it was given by an add or change of the scenario
+    kinds, values = {}, {}
+    for st in sc2.steps:
+        for c, top in M.step_requests(st):
+            if top is None:
+                continue
+            for r in M.flatten_requests(top)[0]:
+                m, params = D.cget(r, b"method"), D.cget(r, b"params")
+                if m in (b"add", b"change") and D.is_obj(params) and isinstance(D.cget(params, b"path"), bytes):
+                    pth = D.cget(params, b"path")
+                    has_v = any(k.lower() == b"value" for k, _ in params[1])
+                    if m == b"add":
+                        kinds.setdefault(pth, set()).add("state" if has_v else "method")
+                    if has_v:
+                        values.setdefault(pth, []).append(D.cget(params, b"value"))
+    for sn in log.snaps:
+        for e in sn["elems"]:
+            kd = "state" if e["value"] != "~" else "method"
+            if e["path"] in kinds and kd not in kinds[e["path"]]:
+                fails.append("element %s was added as a %s but is now a %s" % (D.show(e["path"]), "/".join(sorted(kinds[e["path"]])), kd))
+            elif kd == "state" and e["path"] in values:
+                try:
+                    v = D.canon_text(C.unhex(e["value"]))
+                    if v not in values[e["path"]]:
+                        fails.append("element %s holds the value %s which no add or change gave it" % (D.show(e["path"]), D.show(v)[:80]))
+                except Exception:
+                    pass
     # at most one response per request id and step
     itr = D.ImplTrace(sc2, log, [0] * len(pre) + smap if not extra else None) if not extra else None
     if itr is not None:
@@ -151,7 +179,7 @@ def one(job):
         one_site = []
         for m in re.finditer(r" in (\S+) (\S+)", blk):
             fn, where = m.group(1), m.group(2)
-            if fn.startswith("__wrap_") or fn in ("alloc_should_fail", "cjet_malloc", "cjet_calloc") or "/repo/src" not in where:
+            if fn.startswith(("__wrap_", "__sanitizer", "__interceptor")) or fn in ("alloc_should_fail", "cjet_malloc", "cjet_calloc") or (C.SRC not in where and "/src/" not in where):
                 continue
             one_site.append(fn)
         sites.append(one_site[:6])
